@@ -137,6 +137,44 @@ def single_cause_programs():
     return out
 
 
+def wip_boundary_programs(rnd, n):
+    """otherwise all-passing runs with ONE pending step, the @wip tag placed on the feature / rule / scenario /
+    outline / one examples block - inside or outside the scope the pending step belongs to: green iff inside"""
+    out = []
+    for _ in range(n):
+        ids = iter(range(1, 100))
+        sid = iter(range(1, 100))
+
+        def steps(pending):
+            st = [{"kind": "pass", "id": next(sid)} for _ in range(rnd.randint(0, 2))]
+            if pending:
+                st.append({"kind": "pending", "id": next(sid)})
+            st += [{"kind": "pass", "id": next(sid)} for _ in range(rnd.randint(0, 1))]
+            return st or [{"kind": "pass", "id": next(sid)}]
+        wip_at = rnd.choice(["feature", "rule", "scenario", "outline", "examples0", "examples1", "none"])
+        pending_in = rnd.choice(["scenario", "outline", "rule_scenario"])
+
+        def tags(place):
+            t = ["t1"] if rnd.random() < 0.2 else []
+            return t + (["wip"] if wip_at == place else [])
+        fid = next(ids)
+        scen = {"kind": "scenario", "id": next(ids), "tags": tags("scenario"), "steps": steps(pending_in == "scenario")}
+        outline = {"kind": "outline", "id": next(ids), "tags": tags("outline"), "steps": steps(pending_in == "outline"),
+                   "examples": [{"id": next(ids), "tags": tags("examples0"), "rows": rnd.randint(1, 2)},
+                                {"id": next(ids), "tags": tags("examples1"), "rows": rnd.randint(1, 2)}]}
+        rid = next(ids)
+        rscen = {"kind": "scenario", "id": next(ids), "tags": [], "steps": steps(pending_in == "rule_scenario")}
+        rule = {"kind": "rule", "id": rid, "tags": tags("rule"), "bg": None, "items": [rscen]}
+        items = [scen, outline]
+        rnd.shuffle(items)
+        items.append(rule)              # a Rule captures every scenario after it: rules come last
+        feat = {"id": fid, "tags": tags("feature"), "bg": None, "items": items}
+        cfg = {"dry_run": False, "stop": False, "show_skipped": rnd.random() < 0.5, "expr": None, "hooks": list(runprog.HOOKS),
+               "faults": [], "hook_cleanups": [], "continue_after_failed": False, "async_steps": False}
+        out.append({"features": [feat], "cfg": cfg})
+    return out
+
+
 def suites(tier, seed):
     rnd = random.Random(seed * 1000003 + 1)
     n = 6000 if tier == "thorough" else 1200
@@ -146,7 +184,9 @@ def suites(tier, seed):
         if i % 2:
             p = rc.with_random_faults(rnd, p)
         cases.append(p)
+    cases += wip_boundary_programs(rnd, 400 if tier == "thorough" else 90)
     return [{"name": "programs", "cases": cases, "impl": rc.impl_run, "oracle": oracle,
              "nontrivial": nontrivial, "histogram": rc.histogram, "shrink": rc.shrink_program,
-             "bound": "%d seeded random programs + %d single-cause programs" % (n, len(single_cause_programs())),
+             "bound": "%d seeded random programs + %d single-cause programs + @wip-boundary programs (one pending step, the wip tag "
+                      "on feature / rule / scenario / outline / one examples block)" % (n, len(single_cause_programs())),
              "coq": rc.COQ}]
